@@ -365,7 +365,15 @@ func (c *FnCtx) bitUF(op, x, y string, ii intInfo) string {
 	}
 	f := fmt.Sprintf("bit_%s_%s%d", op, s, ii.bits)
 	c.decl("(declare-fun " + f + " (Int Int) Int)")
-	c.decl("(assert (forall ((x Int) (y Int)) (! (and (<= " + smtInt(ii.min()) + " (" + f + " x y)) (<= (" + f + " x y) " + smtInt(ii.max()) + ")) :pattern ((" + f + " x y)))))")
+	inr := func(v string) string { return "(and (<= " + smtInt(ii.min()) + " " + v + ") (<= " + v + " " + smtInt(ii.max()) + "))" }
+	c.decl("(assert (forall ((x Int) (y Int)) (! (=> (and " + inr("x") + " " + inr("y") + ") " + inr("("+f+" x y)") + ") :pattern ((" + f + " x y)))))")
+	if op == "or" && !ii.signed {
+		// x | y == x + y when x is a multiple of 2^k and y < 2^k (byte-assembly idiom b0<<8 | b1)
+		for k := 8; k < ii.bits; k += 8 {
+			p := smtInt(pow2(k))
+			c.decl("(assert (forall ((x Int) (y Int)) (! (=> (and (>= x 0) (<= (+ x y) " + smtInt(ii.max()) + ") (= (mod x " + p + ") 0) (<= 0 y) (< y " + p + ")) (= (" + f + " x y) (+ x y))) :pattern ((" + f + " x y)))))")
+		}
+	}
 	if op == "and" && !ii.signed {
 		c.decl("(assert (forall ((x Int) (y Int)) (! (=> (and (>= x 0) (>= y 0)) (and (<= (" + f + " x y) x) (<= (" + f + " x y) y))) :pattern ((" + f + " x y)))))")
 	}
